@@ -750,6 +750,19 @@ class C16(Check):
                                          f'{c["task"]} multicomm: {d1} s requested after uid {u1}, but uid {u2} was sent '
                                          f'{sent_at[u2] - sent_at[u1]:.4f} s later'))
                     break
+            # ... and the delay requested after the last command: nobody else talks to the device before it is over
+            # (a transaction that went through: the delays are slept inside the communicator lock)
+            if c['result'][0] == 'ok' and c['reqs'] and c['reqs'][-1][1] and c['uids'][-1] in sent_at:
+                ulast, dlast = c['uids'][-1], c['reqs'][-1][1]
+                conn_last = rx_by_uid[ulast]['conn'] if ulast in rx_by_uid else None
+                later = [(sent_at[v], v) for v in sent_at if v not in c['uids'] and sent_at[v] > sent_at[ulast]
+                         and v in rx_by_uid and rx_by_uid[v]['conn'] == conn_last]
+                if later and min(later)[0] - sent_at[ulast] < dlast - 1e-6:
+                    tv, v = min(later)
+                    res.append(Violation('C16.delay-not-honoured', mode + '|after-last',
+                                         f'{c["task"]} multicomm {c["uids"]}: {dlast} s requested after the last command '
+                                         f'(uid {ulast}, sent at t={sent_at[ulast]:.4f}), but the command uid {v} of another '
+                                         f'caller left the communicator {tv - sent_at[ulast]:.4f} s later'))
         # reconnect attempts made from communicate() respect the reconnect interval.  An attempt is dated by the
         # moment it was decided (check_connection), as the connection itself may have to wait for a reconnect going on
         # in an other thread; every connection made from a caller task needs a decision of its own
